@@ -41,6 +41,11 @@ func init() { register("subscribe", subscribeMain) }
 
 const sentinelName = "zzsent"
 
+// sentinelTarget exists in every scenario's cache, is never removed and is allowed to every
+// user: a '*' subscription can always be synchronised through it, even when every real
+// target has been removed.
+const sentinelTarget = "zzt"
+
 // ---- scenario description ----
 
 type subDesc struct {
@@ -188,7 +193,7 @@ func (a *drvACL) NewRPCACL(ctx context.Context) (subscribe.RPCACL, error) {
 			return nil, errors.New("no credentials")
 		}
 	}
-	r := &drvRPCACL{allowed: map[string]bool{}}
+	r := &drvRPCACL{allowed: map[string]bool{sentinelTarget: true}}
 	for _, t := range a.env.sc.ACL[u] {
 		r.allowed[t] = true
 	}
@@ -506,7 +511,7 @@ func (e *subEnv) writeSentinel(t string, v int64) {
 }
 
 func (e *subEnv) allowed(r *subRun, t string) bool {
-	if e.sc.ACL == nil {
+	if e.sc.ACL == nil || t == sentinelTarget {
 		return true
 	}
 	for _, x := range e.sc.ACL[r.d.User] {
@@ -724,7 +729,7 @@ func runSubScenario(w *trace.Writer, sc subScenario) bool {
 	if !sc.Ed {
 		opts = append(opts, cache.DisableEventDrivenEmulation())
 	}
-	e.c = cache.New(sc.Targets, opts...)
+	e.c = cache.New(append(append([]string{}, sc.Targets...), sentinelTarget), opts...)
 	sopts := []subscribe.Option{subscribe.WithTimeout(time.Duration(sc.TimeoutMs) * time.Millisecond), subscribe.WithStats()}
 	if sc.ACL != nil {
 		sopts = append(sopts, subscribe.WithACL(&drvACL{env: e}))
@@ -737,8 +742,11 @@ func runSubScenario(w *trace.Writer, sc subScenario) bool {
 			acl = append(acl, trace.E{"u": u, "t": t})
 		}
 	}
+	for u := range sc.ACL {
+		acl = append(acl, trace.E{"u": u, "t": sentinelTarget})
+	}
 	sort.Slice(acl, func(i, j int) bool { return fmt.Sprint(acl[i]) < fmt.Sprint(acl[j]) })
-	e.emit(trace.E{"ev": "config", "sc": sc.Sc, "targets": trace.Strs(sc.Targets), "ed": sc.Ed, "acl_on": sc.ACL != nil, "acl": acl,
+	e.emit(trace.E{"ev": "config", "sc": sc.Sc, "targets": append(trace.Strs(sc.Targets), sentinelTarget), "ed": sc.Ed, "acl_on": sc.ACL != nil, "acl": acl,
 		"acl_err": trace.Strs(sc.ACLErr), "timeout_ms": sc.TimeoutMs})
 	for _, d := range sc.Subs {
 		ctx := context.WithValue(context.Background(), userKey{}, d.User)
